@@ -14,6 +14,11 @@ CHECKS = {
   text="Model checking: every deterministic automaton with <=3 states over 2 labels (and 2 states over 3 labels) is a TLC state on which the operation semantics (acceptance, enumeration, k-multiple, recurrent as greatest fixed point, shortest-path version, relabelling) are checked against each other; the library is bound to it by executing every operation on every concrete FSA object reachable by spec histories of bounded depth and comparing with the spec's table, and by TLC validating recorded random histories.",
   note="Bounded universe and word length (<=3 quick, <=4 thorough, plus one foreign letter), k<=3; edge_ties=False and multiple start vertices not covered; harness projection trusted.",
   design="4/C10"),
+ "C06": dict(
+  technique="TLA+ spec Enumerate.tla: TLC checks the transcribed recursion against the declarative meaning on every automaton, emits exact integer images and the LTS of calls sharing a memo dictionary; every LTS transition and every single call (direction x state x length x options) over all automata of the FSAOps path table replayed on the real Representation; Words.tla oracle for freely reduced enumeration",
+  text="Model checking of an explicit specification of automaton_accepted (declarative meaning Ref, the library's recursion Rec transcribed, memo-sharing calls as a state machine) with TLC, bound to the code by replaying every emitted call transition with a real shared `precomputed` dictionary (result words, matrices entry by entry against exact integer images, and every memo entry) and by executing every option combination on every deterministic automaton with <=3 states.",
+  note="Universe: automata <=3 states over {a,B}, lengths <=3 (4 thorough), Sanov generators; memo shared only among calls with equal (direction, maxlen, with_words); quick tier samples 500 of the 3-state automata.",
+  design="4/C06"),
 }
 
 NOT_YET = {
